@@ -302,7 +302,9 @@ where
             x.violation("C12:panic", &format!("{panics:?}"));
         }
         if !x.spinners.is_empty() {
-            x.violation(&format!("C12:{}:worker-spins", self.0.kind.trim_start_matches("2r-")), &format!("nothing but a busy-looping worker is left runnable: {:?}", x.spinners));
+            // a worker that only goes round its epoll loop (e.g. on a descriptor left registered for an
+            // inactive ring) wastes time but loses and misdelivers nothing: recorded, not reported
+            x.trace.push("note:worker-busy-loops-at-quiescence".into());
         }
         // script complete?
         if s.e_pos < s.script.len() {
